@@ -35,60 +35,80 @@ func checkC19(c *Ctx) {
 		}
 		parsers := map[string]bool{"net.ParseCIDR": true, "regexp.Compile": true, "regexp.CompilePOSIX": true, "net.Interfaces": true, "(*net.Interface).Addrs": true, "net.ParseIP": true, "net/netip.ParsePrefix": true}
 		n := 0
-		eachInstr(f, func(in ssa.Instruction) {
-			call, ok := in.(*ssa.Call)
-			if !ok {
-				return
-			}
-			name := calleeName(&call.Call)
-			if name == "regexp.MustCompile" || name == "regexp.MustCompilePOSIX" {
-				n++
-				r.Bad("C19.1", "ParseBlocklists: "+name+" panics on a bad pattern", in.Pos(), fnName(f), "a malformed domain pattern in an otherwise loadable configuration panics the station — at start-up and on every SIGHUP reload — instead of failing the load")
-				return
-			}
-			if !parsers[name] {
-				return
-			}
-			n++
-			errEdges := edgesEstablishing(f, atomMatcher(errAtoms(call, false)...))
-			if len(errEdges) == 0 {
-				// is there a test `err == nil` guarding the use instead? then the nil edge is the only user: the non-nil edge is the other slot
-				r.Bad("C19.1", "ParseBlocklists: error of "+shortName(name)+" is not tested for failure", in.Pos(), fnName(f), "the error result of "+shortName(name)+" is never branched on with a failing edge that leaves: an entry that does not parse is skipped silently")
-				return
-			}
-			okAll := true
-			var w []int
-			for e := range errEdges {
-				succ := f.Blocks[e.from].Succs[e.slot]
-				// from the failing edge: no return with a nil error, and no continuation into the next parse call / loop
-				hit, ww := reachAt(f, succ, func(in2 ssa.Instruction) bool {
-					if ret, ok := in2.(*ssa.Return); ok {
-						if len(ret.Results) == 0 {
-							return true
+		root := f
+		var analyse func(f *ssa.Function) int
+		analyse = func(f *ssa.Function) int {
+			n := 0
+			eachInstr(f, func(in ssa.Instruction) {
+				call, ok := in.(*ssa.Call)
+				if !ok {
+					return
+				}
+				name := calleeName(&call.Call)
+				// a same-package helper that parses a whole list and reports one error is a parser itself (its own
+				// parse calls are analysed the same way, once)
+				if h := helperCallee(f, &call.Call); h != nil && f == root && !parsers[name] && h.Signature.Results().Len() > 0 && isErrorType(h.Signature.Results().At(h.Signature.Results().Len()-1).Type()) {
+					hasParse := false
+					eachInstr(h, func(in2 ssa.Instruction) {
+						if c2, ok := in2.(*ssa.Call); ok && parsers[calleeName(&c2.Call)] {
+							hasParse = true
 						}
-						ev := returnedValue(ret, len(ret.Results)-1, nil)
-						if cst, isC := ev.(*ssa.Const); isC && cst.Value == nil {
-							return true
+					})
+					if hasParse && analyse(h) > 0 {
+						parsers[name] = true
+					}
+				}
+				if name == "regexp.MustCompile" || name == "regexp.MustCompilePOSIX" {
+					n++
+					r.Bad("C19.1", "ParseBlocklists: "+name+" panics on a bad pattern", in.Pos(), fnName(f), "a malformed domain pattern in an otherwise loadable configuration panics the station — at start-up and on every SIGHUP reload — instead of failing the load")
+					return
+				}
+				if !parsers[name] {
+					return
+				}
+				n++
+				errEdges := edgesEstablishing(f, atomMatcher(errAtoms(call, false)...))
+				if len(errEdges) == 0 {
+					// is there a test `err == nil` guarding the use instead? then the nil edge is the only user: the non-nil edge is the other slot
+					r.Bad("C19.1", "ParseBlocklists: error of "+shortName(name)+" is not tested for failure", in.Pos(), fnName(f), "the error result of "+shortName(name)+" is never branched on with a failing edge that leaves: an entry that does not parse is skipped silently")
+					return
+				}
+				okAll := true
+				var w []int
+				for e := range errEdges {
+					succ := f.Blocks[e.from].Succs[e.slot]
+					// from the failing edge: no return with a nil error, and no continuation into the next parse call / loop
+					hit, ww := reachAt(f, succ, func(in2 ssa.Instruction) bool {
+						if ret, ok := in2.(*ssa.Return); ok {
+							if len(ret.Results) == 0 {
+								return true
+							}
+							ev := returnedValue(ret, len(ret.Results)-1, nil)
+							if cst, isC := ev.(*ssa.Const); isC && cst.Value == nil {
+								return true
+							}
+							return false
+						}
+						if c2, ok := in2.(*ssa.Call); ok && parsers[calleeName(&c2.Call)] {
+							return true // carried on to the next entry
 						}
 						return false
+					}, nil, nil)
+					if hit {
+						okAll = false
+						w = ww
 					}
-					if c2, ok := in2.(*ssa.Call); ok && parsers[calleeName(&c2.Call)] {
-						return true // carried on to the next entry
-					}
-					return false
-				}, nil, nil)
-				if hit {
-					okAll = false
-					w = ww
 				}
-			}
-			if okAll {
-				r.OK("C19.1", "ParseBlocklists: a failing "+shortName(name)+" fails the load", in.Pos(), "every path from its error edge ends in a non-nil error return")
-			} else {
-				r.Bad("C19.1", "ParseBlocklists: a failing "+shortName(name)+" is skipped", in.Pos(), fnName(f),
-					"when "+shortName(name)+" rejects an entry the loader carries on (or returns success): the accepted configuration contains a list entry that is never enforced", r.blockPath(f, w)...)
-			}
-		})
+				if okAll {
+					r.OK("C19.1", "ParseBlocklists: a failing "+shortName(name)+" fails the load", in.Pos(), "every path from its error edge ends in a non-nil error return")
+				} else {
+					r.Bad("C19.1", "ParseBlocklists: a failing "+shortName(name)+" is skipped", in.Pos(), fnName(f),
+						"when "+shortName(name)+" rejects an entry the loader carries on (or returns success): the accepted configuration contains a list entry that is never enforced", r.blockPath(f, w)...)
+				}
+			})
+			return n
+		}
+		n = analyse(root)
 		if n < 4 {
 			r.Unk("C19.1", "ParseBlocklists: parse calls", f.Pos(), fnName(f), fmt.Sprintf("found %d parse calls, expected >= 4 (three subnet lists and the domain patterns)", n))
 		}
@@ -619,6 +639,69 @@ func checkC19Enforcement(c *Ctx) {
 			return ok && parsers[calleeName(&cl.Call)]
 		}
 		n := 0
+		// a same-package helper that parses a whole list into the slice a pointer parameter refers to: inside it every
+		// parsed entry is appended to *param unconditionally; at each call the pointer is the address of an enforced list
+		eachInstr(f, func(in ssa.Instruction) {
+			call, ok := in.(*ssa.Call)
+			if !ok {
+				return
+			}
+			h := helperCallee(f, &call.Call)
+			if h == nil {
+				return
+			}
+			pi := -1
+			okHelper := true
+			nParse := 0
+			eachInstr(h, func(in2 ssa.Instruction) {
+				pc, ok := in2.(*ssa.Call)
+				if !ok || !parsers[calleeName(&pc.Call)] {
+					return
+				}
+				nParse++
+				cp := pathOf(pc)
+				records := map[ssa.Instruction]bool{}
+				eachInstr(h, func(in3 ssa.Instruction) {
+					st, ok := in3.(*ssa.Store)
+					if !ok {
+						return
+					}
+					prm, isP := st.Addr.(*ssa.Parameter)
+					if !isP {
+						return
+					}
+					if strings.HasPrefix(pathOf(st.Val), "append("+pname(prm)+", ["+cp+"#") || strings.HasPrefix(pathOf(st.Val), "append(*"+pname(prm)+", ["+cp+"#") {
+						records[in3] = true
+						for i, p := range h.Params {
+							if p == prm {
+								pi = i
+							}
+						}
+					}
+				})
+				errEdges := edgesEstablishing(h, atomMatcher(errAtoms(pc, false)...))
+				if hit, _ := reach(h, pc, func(in3 ssa.Instruction) bool {
+					if _, isR := in3.(*ssa.Return); isR {
+						return true
+					}
+					return isParse(in3)
+				}, inSet(records), errEdges); hit || len(records) == 0 {
+					okHelper = false
+				}
+			})
+			if nParse == 0 {
+				return
+			}
+			n++
+			field := ""
+			if pi >= 0 && pi < len(call.Call.Args) {
+				if o, fld, ok := fieldOwner(call.Call.Args[pi]); ok && o == "lib.RegConfig" && c19Lists[fld] {
+					field = fld
+				}
+			}
+			r.Check(okHelper && field != "", "C19.4", "ParseBlocklists: "+h.Name()+" records every parsed entry in the enforced list it is given", call.Pos(), fnName(f), "helper appends each parsed entry to *param; argument is &c."+field,
+				"a list is parsed by a helper that does not append every accepted entry to the slice it was given, or the slice it is given is not one of the enforced lists: the configuration is accepted but an entry is not enforced")
+		})
 		eachInstr(f, func(in ssa.Instruction) {
 			call, ok := in.(*ssa.Call)
 			if !ok || !parsers[calleeName(&call.Call)] {
@@ -898,7 +981,6 @@ func mutatesReceiver(m *ssa.Function) bool {
 	})
 	return found
 }
-
 
 // errNames: the renderings under which the error result of call appears in conditions (its extract, and the local
 // it is stored into).
